@@ -22,6 +22,11 @@ INDEXES = ["range", "offset", "datetime", "period"]
 COLS = ["default", "strings", "labels"]
 
 
+# narrow integer dtypes: (NumPy type, scale of the values)
+NARROW = {"int8": (np.int8, 1), "int16": (np.int16, 30), "int32": (np.int32, 10**4)}
+DTYPES = ["int", "float", "int", "float", "int8", "int16", "int32"]
+
+
 def base_values(c):
     g = np.random.default_rng(c["seed"])
     n, p = c["n"], c["p"]
@@ -29,6 +34,8 @@ def base_values(c):
     t = int(g.integers(4, n - 4))
     X[t:] += int(g.choice([4, -5, 6]))
     X[int(g.integers(n))] += 9
+    if c["dtype"] in NARROW:  # values that fit the narrow integer type while their squares do not
+        return X * NARROW[c["dtype"]][1]
     if c["big"]:
         X = X * 10**8  # large integers: exactly representable in float64, squares need care in int64
     return X
@@ -36,7 +43,7 @@ def base_values(c):
 
 def wrap(vals, c, container=None, index=None, cols=None, dtype=None):
     container, index, cols, dtype = container or c["container"], index or c["index"], cols or c["cols"], dtype or c["dtype"]
-    A = vals.astype(np.int64 if dtype == "int" else np.float64)
+    A = vals.astype(np.int64 if dtype == "int" else NARROW[dtype][0] if dtype in NARROW else np.float64)
     n, p = A.shape
     idx = {"range": pd.RangeIndex(n), "offset": pd.RangeIndex(50, 50 + n), "datetime": pd.date_range("2020-05-01", periods=n, freq="D"),
            "period": pd.period_range("2019-01", periods=n, freq="M")}[index]
@@ -55,7 +62,7 @@ def gen_det(rng):
     p = 1 if kind == "stat" or rng.random() < 0.5 else rng.randint(2, 3)
     container = rng.choice(CONTAINERS if p == 1 else ["frame", "array2d"])
     return {"t": "det", "kind": kind, "n": rng.randint(20, 36), "p": p, "seed": rng.randint(0, 10**6), "container": container,
-            "index": rng.choice(INDEXES), "cols": rng.choice(COLS), "dtype": rng.choice(["int", "float"]), "big": rng.random() < 0.3,
+            "index": rng.choice(INDEXES), "cols": rng.choice(COLS), "dtype": rng.choice(DTYPES), "big": rng.random() < 0.3,
             "scale": rng.choice([0.5, 1.0, None]), "m": rng.randint(1, 3), "entry": rng.choice(["predict", "transform", "transform_scores", "transform_scores", "update", "fit_predict"]),
             "ov": rng.choice([0, 1, 4])}
 
@@ -153,7 +160,7 @@ def gen_scorer(rng):
     p = rng.choice([1, 1, 2, 3])
     return {"t": "scorer", "kind": rng.choice(SCORER_KINDS), "n": rng.randint(20, 40), "p": p, "seed": rng.randint(0, 10**6),
             "container": rng.choice(CONTAINERS if p == 1 else ["frame", "array2d"]), "index": rng.choice(INDEXES), "cols": rng.choice(COLS),
-            "dtype": rng.choice(["int", "float"]), "big": rng.random() < 0.4}
+            "dtype": rng.choice(DTYPES), "big": rng.random() < 0.4}
 
 
 def impl_scorer(c):
